@@ -35,7 +35,7 @@ ASSUMPTIONS = [
 ]
 
 KINDS = ["acm", "scm", "push-async", "push-sync", "push-cm", "push-scm", "callback-async", "callback-sync"]
-BEHAVIOURS = ["falsy", "truthy", "raise", "raise-if-exc", "reraise", "raise-base", "raise-chained", "grumpy-result"]
+BEHAVIOURS = ["falsy", "truthy", "raise", "raise-if-exc", "reraise", "raise-base", "raise-chained", "grumpy-result", "raise-block"]
 
 
 class New(Exception):
@@ -70,8 +70,17 @@ def role(exc, block_exc):
     return ("other", type(exc).__name__)
 
 
+BLOCK_REF = [None]  # the exception object the current program's block raised (if any)
+
+
 def behave(i, behaviour, received):
     """what exit ``i`` does when it receives ``received``"""
+    if behaviour == "raise-block":
+        # raises the very exception object of the block again, whatever it received (the "remember the
+        # first error and report it at the end" pattern) - also after an inner exit suppressed it
+        if BLOCK_REF[0] is not None:
+            raise BLOCK_REF[0]
+        return False
     if behaviour == "falsy":
         return False
     if behaviour == "truthy":
@@ -211,10 +220,12 @@ async def run_stack(case, log):
                         log.append(("callback-did-not-return-its-argument",))
             log.append(("block",))
             if case["block"] == "raises":
-                block_ref[0] = Block("block")
+                block_ref[0] = BLOCK_REF[0] = Block("block")
                 raise block_ref[0]
     except BaseException as exc:  # noqa: B902
         return ("raise", role(exc, block_ref[0]))
+    finally:
+        BLOCK_REF[0] = None
     return ("ok",)
 
 
@@ -226,7 +237,7 @@ async def run_nested(case, log):
         if i == len(refs):
             log.append(("block",))
             if case["block"] == "raises":
-                block_ref[0] = Block("block")
+                block_ref[0] = BLOCK_REF[0] = Block("block")
                 raise block_ref[0]
             return
         how, cm = refs[i]
@@ -244,6 +255,8 @@ async def run_nested(case, log):
         await level(0)
     except BaseException as exc:  # noqa: B902
         return ("raise", role(exc, block_ref[0]))
+    finally:
+        BLOCK_REF[0] = None
     return ("ok",)
 
 
